@@ -93,7 +93,7 @@ pub const CUBE_PATTERNS: &[&str] = &[
     // no anchor
     "ads", "/ads/foo", "ads/foo", "foo/bar", "ads*bar", "ads^", "^ads^", "ads^foo", "/ads", "ads.", ".net/ads", "=1", "?x", "_foo", "ads*", "*ads", "*/foo/*", "a", "/",
     // right anchor
-    "bar|", "/foo/bar|", "ads^|", ".js|",
+    "bar|", "/foo/bar|", "ads^|", ".js|", "/*bar|", "ads*bar|",
     // left anchor
     "|https://ads.net/ads", "|https://", "|http://ads.net", "|https://ads.net/|", "|https://*.ads.net/", "|ws", "|wss://ads.net/ads", "|ws://ads.net/",
     // hostname anchor
